@@ -23,7 +23,8 @@ type VLoopIn struct {
 	Pages   []int    `json:"pages"`
 	N       int      `json:"n"`
 	Ref     string   `json:"ref"`
-	Skip    bool     `json:"skip"`
+	Skip    string   `json:"skip"` // "no" | "yes" | "error"
+	ListErr bool     `json:"listErr"`
 }
 
 type VLoopObs struct {
@@ -60,6 +61,9 @@ func (r *loopRepo) Resolve(ctx context.Context, reference string) (ocispec.Descr
 	r.mu.Lock()
 	defer r.mu.Unlock()
 	r.resolves++
+	if r.in.Ref == "unresolvable" {
+		return ocispec.Descriptor{}, errors.New("mock: no such tag")
+	}
 	return r.resolved, nil
 }
 
@@ -77,6 +81,9 @@ func (r *loopRepo) ListSignatures(ctx context.Context, desc ocispec.Descriptor, 
 		if err := fn(page); err != nil {
 			return err
 		}
+	}
+	if r.in.ListErr {
+		return errors.New("mock: the registry failed at the end of the listing")
 	}
 	return nil
 }
@@ -137,6 +144,9 @@ func (v *loopVerifier) Verify(ctx context.Context, desc ocispec.Descriptor, sig 
 	if k >= 1 && k <= len(v.in.Listing) && v.in.Listing[k-1] == "valid" {
 		return out, nil
 	}
+	if k >= 1 && k <= len(v.in.Listing) && v.in.Listing[k-1] == "nilOutcome" {
+		return nil, fmt.Errorf("mock: signature %d cannot be evaluated at all", k) // a failure without an outcome
+	}
 	out.Error = fmt.Errorf("mock: signature %d does not verify", k)
 	return out, out.Error
 }
@@ -145,7 +155,10 @@ func (v *loopVerifier) SkipVerify(ctx context.Context, opts notation.VerifierVer
 	v.mu.Lock()
 	v.skipChecks++
 	v.mu.Unlock()
-	if v.in.Skip {
+	if v.in.Skip == "error" {
+		return false, nil, errors.New("mock: the trust policy cannot be evaluated")
+	}
+	if v.in.Skip == "yes" {
 		return true, trustpolicy.LevelSkip, nil
 	}
 	return false, trustpolicy.LevelStrict, nil
@@ -161,7 +174,7 @@ func runNotationVerify() int {
 		ver := &loopVerifier{in: in, want: resolved}
 		ref := "registry.verif.example/app/web"
 		switch in.Ref {
-		case "tag":
+		case "tag", "unresolvable":
 			ref += ":v1"
 		case "digestMatch":
 			ref += "@" + string(resolved.Digest)
@@ -213,7 +226,7 @@ func runNotationVerify() int {
 			default:
 				obs.RetDesc = "other"
 			}
-			if in.Skip && err == nil {
+			if in.Skip == "yes" && err == nil {
 				obs.RetDesc = "none" // the skip path returns no descriptor; not judged
 			}
 			if ver.wrongDesc {
